@@ -80,6 +80,21 @@ template <class FM, class FS, class K, class M> void flat_target(Src &s, Case &c
             }
             VP_CHECK(threw == (rm.count(k) == 0), "map_at_throw", "%s: at(%s) %s, std::map would %s", op, Keys<K>::show(k).c_str(),
                      threw ? "threw" : "returned", rm.count(k) ? "return" : "throw");
+            // the const overload of at() is a function of its own
+            bool cthrew = false;
+            try
+            {
+                const auto &cfm = fm;
+                const M &v = cfm.at(k);
+                VP_CHECK(rm.count(k) && v == rm.at(k), "map_const_at_value", "%s: const at(%s) returned a value std::map does not hold", op,
+                         Keys<K>::show(k).c_str());
+            }
+            catch (const std::out_of_range &)
+            {
+                cthrew = true;
+            }
+            VP_CHECK(cthrew == (rm.count(k) == 0), "map_const_at_throw", "%s: const at(%s) %s, std::map would %s", op, Keys<K>::show(k).c_str(),
+                     cthrew ? "threw" : "returned", rm.count(k) ? "return" : "throw");
         }
     };
     check("initial");
